@@ -145,7 +145,12 @@ func (s *Service) Process(ctx context.Context, request []byte) ([]byte, error) {
 	if err != nil {
 		return nil, err
 	}
-	return s.Codec.Encode(result, serviceContext)
+	response, err := s.Codec.Encode(result, serviceContext)
+	if err != nil {
+		// the half-written response is of no use to the caller: report the encoding error instead
+		return nil, err
+	}
+	return response, nil
 }
 
 // argumentValue returns the reflect.Value of the i-th argument of a call to a function of type ft.
